@@ -492,6 +492,55 @@ class _ResultTemporary(ast.NodeTransformer):
         return out
 
 
+class _SelfAttrAlias(ast.NodeTransformer):
+    """`self.mesh` / `self.region` / `self.field` read several times in a method is bound once to a local at the top (methods
+    that rebind the attribute are left alone; the alias names the same object, in-place changes show through it)"""
+    ATTRS = ("mesh", "region", "field")
+
+    def visit_FunctionDef(self, node):
+        self.generic_visit(node)
+        if not node.args.args or node.args.args[0].arg != "self":
+            return node
+        if any(isinstance(n, (ast.Lambda, ast.FunctionDef, ast.ListComp, ast.GeneratorExp, ast.DictComp, ast.SetComp))
+               for st in node.body for n in ast.walk(st)):
+            return node             # scopes that would capture the alias: left alone
+        for attr in self.ATTRS:
+            loads = [n for st in node.body for n in ast.walk(st) if isinstance(n, ast.Attribute) and n.attr == attr
+                     and isinstance(n.value, ast.Name) and n.value.id == "self" and isinstance(n.ctx, ast.Load)]
+            stores = [n for st in node.body for n in ast.walk(st) if isinstance(n, ast.Attribute) and n.attr in (attr, "_" + attr)
+                      and isinstance(n.value, ast.Name) and n.value.id == "self" and not isinstance(n.ctx, ast.Load)]
+            names = {n.id for st in node.body for n in ast.walk(st) if isinstance(n, ast.Name)} | {a.arg for a in node.args.args}
+            alias = f"{attr}_alias_"
+            if len(loads) < 2 or stores or alias in names:
+                continue
+
+            class R(ast.NodeTransformer):
+                def visit_Attribute(self_, n):
+                    self_.generic_visit(n)
+                    if n.attr == attr and isinstance(n.value, ast.Name) and n.value.id == "self" and isinstance(n.ctx, ast.Load):
+                        return ast.copy_location(ast.Name(alias, ast.Load()), n)
+                    return n
+            k = 1 if (node.body and isinstance(node.body[0], ast.Expr) and isinstance(node.body[0].value, ast.Constant)) else 0
+            body = [R().visit(st) for st in node.body[k:]]
+            bind = ast.Assign(targets=[ast.Name(alias, ast.Store())],
+                              value=ast.Attribute(ast.Name("self", ast.Load()), attr, ast.Load()))
+            node.body = node.body[:k] + [bind] + body
+        return node
+
+
+class _CompareSwap(ast.NodeTransformer):
+    """`a == b` is written `b == a`, `a < b` is written `b > a` (single comparisons of two side-effect-free operands)"""
+    SWAP = {ast.Eq: ast.Eq, ast.NotEq: ast.NotEq, ast.Lt: ast.Gt, ast.Gt: ast.Lt, ast.LtE: ast.GtE, ast.GtE: ast.LtE}
+
+    def visit_Compare(self, node):
+        self.generic_visit(node)
+        if len(node.ops) == 1 and type(node.ops[0]) in self.SWAP and \
+                not any(isinstance(n, (ast.Call, ast.NamedExpr, ast.Await)) for x in (node.left, node.comparators[0]) for n in ast.walk(x)):
+            return ast.copy_location(ast.Compare(left=node.comparators[0], ops=[self.SWAP[type(node.ops[0])]()],
+                                                 comparators=[node.left]), node)
+        return node
+
+
 def _apply(cls):
     def run(repo_root):
         out = {}
@@ -508,9 +557,10 @@ def _apply(cls):
 
 # the rewrites every check must survive (a failure fails the thorough tier)
 GATED = {"unnest-else", "nest-else", "split-guards", "reverse-keywords", "hoist-arguments", "annotate", "log-entry", "extract-constants", "positional-ctor-args",
-         "edit-docstrings", "reword-messages", "result-temporary"}
+         "edit-docstrings", "reword-messages", "result-temporary", "alias-self-attributes", "swap-comparisons"}
 EXTRA.update({"unnest-else": _apply(_ElseUnnester), "nest-else": _apply(_ElseNester), "split-guards": _apply(_GuardSplitter),
               "reverse-keywords": _apply(_KwReverser), "hoist-arguments": _apply(_ArgHoister),
               "annotate": _apply(_Annotator), "log-entry": _apply(_EntryLogger), "extract-constants": _apply(_ConstExtractor), "positional-ctor-args": _apply(_KwToPositional),
               "edit-docstrings": _apply(_DocstringEditor), "reword-messages": _apply(_MessageEditor),
-              "result-temporary": _apply(_ResultTemporary)})
+              "result-temporary": _apply(_ResultTemporary), "alias-self-attributes": _apply(_SelfAttrAlias),
+              "swap-comparisons": _apply(_CompareSwap)})
